@@ -25,9 +25,10 @@ GROUP = 40  # cases per group function (boots runs out of its own heap on very l
 class Case:
     """One closed test case: `body` is the text of a Dora function body printing its observations with
     println; `decls` are top-level declarations private to the case (names must contain `{id}`)."""
-    __slots__ = ("family", "name", "body", "decls", "expect_out", "expect_end", "meta")
+    __slots__ = ("family", "name", "body", "decls", "expect_out", "expect_end", "meta", "prelude")
 
-    def __init__(self, family, name, body, decls="", expect_out=None, expect_end=None, meta=None):
+    def __init__(self, family, name, body, decls="", expect_out=None, expect_end=None, meta=None, prelude=""):
+        self.prelude = prelude          # declarations shared by all cases of a family (emitted once per unit)
         self.family = family
         self.name = name
         self.body = body
@@ -121,6 +122,11 @@ class Unit:
 
     def source(self):
         out = [self.prelude]
+        seen_preludes = []
+        for c in self.cases:
+            if c.prelude and c.prelude not in seen_preludes:
+                seen_preludes.append(c.prelude)
+        out += seen_preludes
         for i, c in enumerate(self.cases):
             if c.decls:
                 out.append(c.decls.replace("{id}", str(i)))
